@@ -241,6 +241,7 @@ fn rstep(len_hint: usize) -> impl Strategy<Value = RStep> {
     let l = len_hint as i64;
     prop_oneof![
         5 => (0usize..64).prop_map(RStep::Read),
+        1 => prop_oneof![Just(4096usize), Just(65_536), Just(70_000)].prop_map(RStep::Read),
         2 => prop_oneof![0u64..12, (l.max(1) as u64 - 1)..(l as u64 + 4), Just(u64::MAX), Just(1u64 << 40), Just(i64::MAX as u64)].prop_map(RStep::Start),
         3 => prop_oneof![-12i64..12, Just(i64::MAX), Just(i64::MIN), Just(-l), Just(-l - 1), Just(l + 3)].prop_map(RStep::Current),
         3 => prop_oneof![-12i64..6, Just(i64::MAX), Just(i64::MIN), Just(-l), Just(-l - 1), Just(0)].prop_map(RStep::End),
@@ -250,7 +251,12 @@ fn rstep(len_hint: usize) -> impl Strategy<Value = RStep> {
 }
 
 fn read_case(stdfs: bool) -> impl Strategy<Value = ReadCase> {
-    prop::collection::vec(any::<u8>(), 0..300).prop_flat_map(move |data| {
+    // mostly small files; one case in ten is larger than any plausible internal block (64 KiB)
+    prop_oneof![
+        9 => prop::collection::vec(any::<u8>(), 0..300),
+        1 => (65_530usize..66_000, any::<u8>()).prop_map(|(n, s)| (0..n).map(|i| (i as u8).wrapping_mul(31).wrapping_add(s)).collect::<Vec<u8>>()),
+    ]
+    .prop_flat_map(move |data| {
         let n = data.len();
         (Just(data), prop::collection::vec(rstep(n), 1..14)).prop_map(move |(data, script)| ReadCase { stdfs, data, script })
     })
@@ -260,7 +266,7 @@ fn write_case(stdfs: bool) -> impl Strategy<Value = WriteCase> {
     (
         any::<bool>(),
         prop::option::of(prop::collection::vec(any::<u8>(), 0..20)),
-        prop::collection::vec(prop::collection::vec(any::<u8>(), 0..24), 0..6),
+        prop::collection::vec(prop_oneof![12 => prop::collection::vec(any::<u8>(), 0..24), 1 => (65_000usize..70_000).prop_map(|n| (0..n).map(|i| (i % 253) as u8).collect::<Vec<u8>>())], 0..6),
         prop::collection::vec(any::<bool>(), 6),
         0usize..7,
         0u8..4,
